@@ -241,3 +241,131 @@ def c_visit_if(P):
         return
     P.prove("flag_restored_on_exit", zbool(v.fields["type_guarded"]) == G0)
     P.cover("visit_if")
+
+
+def install_alias_member_reads(P):
+    """Reading labels / docstring / annotation of an existing member that is an alias resolves it: value or AliasResolutionError / CyclicAliasError."""
+    def mk(attr):
+        def hook(P_, o):
+            which = P_.fresh_int("alias_read_" + attr)
+            P_.assume(z3.And(which.z >= 0, which.z <= 2))
+            if P_.branch(which.z == 1):
+                raise PyExc(SObj("AliasResolutionError", {"args": ()}))
+            if P_.branch(which.z == 2):
+                raise PyExc(SObj("CyclicAliasError", {"args": ()}))
+            return o.fields[attr]
+        return hook
+    for attr in ("labels", "docstring", "annotation"):
+        P.attr_hooks[("Alias", attr)] = mk(attr)
+
+
+@contract("C01", "visitor.handle_attribute.per_name", [VS + "handle_attribute"], floor=6, replay="replay_visitor", split=16)
+def c_handle_attribute(P):
+    """One generic target name of an assignment, from an arbitrary carried state: dotted names create nothing; a conditional re-assignment of an
+    existing name creates nothing and does not stop the loop; otherwise exactly one attribute member named after the target, on the right parent,
+    with the statement's span and the runtime flag, announced after it was placed."""
+    install_expr_str(P)
+    install_alias_member_reads(P)
+    v, cur, ev, info = VF.mk_visitor(P, cur_kinds=("Module", "Class", "Function"))
+    G0 = info["G0"]
+    stmt_parent_classes = ["ast.Module", "ast.ClassDef", "ast.If", "ast.ExceptHandler", "ast.Try", "ast.For", "ast.FunctionDef"]
+    spk = z3.Int("stmt_parent_cls")
+    P.assume(z3.And(spk >= 0, spk < len(stmt_parent_classes)))
+    value = opt(P, "value_node", lambda: VF.ast_node(P, "ast.Constant", "value"))
+    node = VF.ast_node(P, "ast.Assign", "assign", value=value, parent=SObj(SCls(stmt_parent_classes, spk), {}, ident=z3.Int("stmt_parent_id"), frozen=True))
+    NAME = z3.Function("TARGET_NAME", IntS, StrS)
+    names = sym_seq(P, "names", lambda i: SStr(NAME(zint(i))))
+    unsupported = z3.Bool("targets_unsupported")
+
+    def get_names(P_, a, k):
+        if P_.branch(unsupported):
+            raise PyExc(P_.mk_exc("KeyError", "unsupported target"))
+        return names
+    for mod in ("_griffe.agents.visitor", "_griffe.agents.nodes.assignments"):
+        P.opaque_hooks[mod + ":get_names"] = get_names
+        P.opaque_hooks[mod + ":get_instance_names"] = get_names
+    nxt = z3.Bool("has_next_statement")
+
+    def ast_next(P_, a, k):
+        if P_.branch(nxt):
+            return VF.ast_node(P_, "ast.Expr", "next_stmt")
+        raise PyExc(SObj("LastNodeError", {"args": ()}))
+    P.opaque_hooks["_griffe.agents.visitor:ast_next"] = ast_next
+    P.opaque_hooks["_griffe.agents.visitor:safe_get__all__"] = lambda P_, a, k: []
+    annotation = opt(P, "annotation", lambda: SObj("ExprValue", {}, ident=z3.Int("annotation_id"), frozen=True))
+    q = VS + "handle_attribute"
+    from pyvc.models import SymSet
+
+    def hint_labels(P_, nm):
+        return SymSet(items=[], parts=[sym_seq(P_, "carried_labels", lambda i: SStr(z3.Function("CARRIED_LABEL", IntS, StrS)(zint(i))))])
+
+    def hint_doc(P_, nm):
+        return opt(P_, "carried_docstring", lambda: SObj("Docstring", {}, ident=z3.Int("carried_docstring_id")))
+
+    def hint_ann(P_, nm):
+        return opt(P_, "carried_annotation", lambda: SObj("ExprValue", {}, ident=z3.Int("carried_annotation_id"), frozen=True))
+    P.expects["clause"] = "handle_attribute"
+    P.witness.update(statement_parent=SInt(spk))
+
+    def post_body(P_, before, after):
+        it_events = list(ev[2:])      # on_node, on_attribute_node precede the loop
+        name = after["name"]
+        target = after["parent"]
+        if isinstance(target, SUnion):
+            target = P_.choose(target)
+        exists = zbool(models.map_has(P_, target.fields["members"], name))
+        conditional = z3.Or(spk == stmt_parent_classes.index("ast.If"), spk == stmt_parent_classes.index("ast.ExceptHandler"))
+        skip = z3.Or(z3.Contains(zstr(name), z3.StringVal(".")), z3.And(exists, conditional))
+        sets = [e for e in it_events if e[0] == "set_member"]
+        P_.prove("member_created_unless_dotted_or_conditional_reassignment", z3.BoolVal(len(sets) == 0) == skip, n=len(sets))
+        P_.prove("at_most_one_member_per_target", len(sets) <= 1)
+        if len(sets) != 1:
+            P_.prove("nothing_announced_when_nothing_is_placed", not [e for e in it_events if e[0] == "ext"])
+            return
+        _, recv, key, obj = sets[0]
+        expected_parent = cur if P_.resolve_cls(cur) != "Function" else cur.fields["parent"]
+        P_.prove("placed_on_the_scope_that_owns_the_name", recv is expected_parent or (isinstance(recv, SObj) and isinstance(expected_parent, SObj) and recv.ident.eq(expected_parent.ident)))
+        P_.prove("keyed_and_named_by_the_target", z3.And(zstr(key) == zstr(name), zstr(obj.fields["name"]) == zstr(name)))
+        P_.prove("is_an_attribute", P_.resolve_cls(obj) == "Attribute")
+        P_.prove("span_is_the_statement", obj.fields["lineno"] is node.fields["lineno"] and obj.fields["endlineno"] is node.fields["end_lineno"])
+        P_.prove("runtime_flag_is_not_type_guarded", zbool(obj.fields["runtime"]) == z3.Not(G0))
+        kinds = [(e[1] if e[0] == "ext" else e[0]) for e in it_events]
+        P_.prove("announced_once_after_being_placed", kinds == ["set_member", "on_instance", "on_attribute_instance"], kinds=str(kinds))
+        ann_ev = [e for e in it_events if e[0] == "ext"]
+        P_.prove("the_placed_object_is_the_one_announced", all((e[2].get("obj") or e[2].get("attr")) is obj for e in ann_ev))
+    P.loop_specs[(q, 0)] = dict(mode="inv", name="names", no_break=True, post_body=post_body, may_write=("parent", "exports"),
+                                hints={"labels": hint_labels, "docstring": hint_doc, "annotation": hint_ann, "name": lambda P_, nm: P_.fresh_str(nm),
+                                       "existing_member": lambda P_, nm: None, "attribute": lambda P_, nm: None})
+    kind, res = outcome(P, lambda: call(P, q, v, node, annotation))
+    if kind == "raise":
+        P.prove("never_raises", False, exc=P.resolve_cls(res))
+        return
+    P.cover("handle_attribute")
+
+
+@contract("C01", "visitor.handle_function.spans_flags_events", [VS + "handle_function"], floor=5, replay="replay_visitor", split=16)
+def c_handle_function_c01(P):
+    VF.handle_function_driver(P, "C01")
+
+
+def lemmas(tier, seed):
+    from pyvc.source import SourceIndex
+    idx = SourceIndex()
+    idx.load_all()
+    return [VF.ownership_lemma(idx)]
+
+
+def bounded_checks(tier, seed):
+    import json, os, subprocess, time
+    from pyvc.run import VERIF, VENV_PY, REPO_SRC
+    t0 = time.time()
+    n_random, budget = (400, 60) if tier == "quick" else (20000, 900)
+    r = subprocess.run([VENV_PY, "-m", "replay.C01", str(seed), str(n_random), str(budget)], capture_output=True, text=True, cwd=str(VERIF),
+                       env=dict(os.environ, PYTHONPATH=str(REPO_SRC)), timeout=budget + 300)
+    if r.returncode != 0:
+        raise RuntimeError("bounded C01 catalogue crashed: " + r.stderr[-1500:])
+    d = json.loads(r.stdout.strip().splitlines()[-1])
+    return [{"check": "module_catalogue", "tool": "griffe.visit vs. an independent `ast` walk of the same source (members, kinds, runtime flags, spans, decorator labels, "
+             "overloads, accessors, parameters, extension event order); statement templates nested in if TYPE_CHECKING / else / try / for / class / __init__",
+             "bound": f"every compound template x every ordered pair of simple statements (19 x 19 x 14) + {n_random} random modules nested to depth 3",
+             "cases": d["cases"], "failing": len(d["bad"]), "wall_s": round(time.time() - t0, 1), "violations": d["bad"]}]
